@@ -3,6 +3,12 @@ import gen
 import c19
 
 PROPS = {
+    "C05": dict(
+        files=[("value", "c05_value.rs"), ("op", "c05_op.rs")],
+        generators=[gen.gen_c05],
+        bounds="operand lists of length 0..5 (quick) / 0..7 (thorough) of literal scalars with symbolic payloads",
+        out="operands that are operations (poisoned / logging expressions need Operation::evaluate's fn-pointer fan-out); the CLI's log lines; lists longer than 7",
+    ),
     "C11": dict(
         files=[("op::data", "c11_data.rs")],
         bounds="units of the lookup: index helper (len<=3, every i64), key typing per shape, string data <=2 chars of symbolic width, array data of 2 scalars, paths <=2 (quick) / 3 (thorough) chars over {a . \\ 1}, default logic on concrete keys",
